@@ -209,10 +209,30 @@ class Result:
     pass
 
 
-def attempt(case, variant=0, workdir=None):
+# client options that must not change the decision on plain keys and
+# OpenSSH certificates: only X.509 is switched on/off by them, or only the
+# FORM in which the known hosts are handed over changes
+OPTION_SETTINGS = [
+    {'x509': 'none'}, {'x509': 'empty'},
+    {'paths': 'empty'}, {'paths': 'none'},
+    {'x509': 'none', 'paths': 'empty'},
+    {'purposes': 'any'}, {'purposes': 'none'},
+    {'kh': 'path'}, {'kh': 'object'}, {'kh': 'bytes'}, {'kh': 'pathlist'},
+    {'kh': 'callable'}, {'kh': 'tuple'}, {'kh': 'tuple7'},
+    {'kh': 'tuple', 'x509': 'none'}, {'kh': 'callable', 'x509': 'none'},
+    {'kh': 'object', 'x509': 'none', 'hkalgs': 'default'},
+    {'hkalgs': 'default'}, {'hkalgs': 'all'}, {'hkalgs': 'auto'},
+    {'hkalgs': 'all', 'x509': 'none'}, {'hkalgs': 'auto', 'x509': 'none'},
+    {'hkalgs': 'restricted'},
+]
+
+
+def attempt(case, variant=0, workdir=None, opt=None):
     """case: dict(lines=[{marker,match,key}], port, mode, cbKey, cbCA, pres)
-    variant: integer choosing spellings / key types / API forms."""
+    variant: integer choosing spellings / key types / API forms.
+    opt: one of OPTION_SETTINGS (overrides what variant would choose)."""
     v = variant
+    opt = opt or {}
     ktype = ['ed25519', 'ecdsa', 'rsa', 'ed25519'][v % 4]
     catype = ['ed25519', 'rsa', 'ecdsa'][(v // 4) % 3]
     use_alias = (v // 3) % 5 == 1
@@ -301,30 +321,71 @@ def attempt(case, variant=0, workdir=None):
             r.client_auth_events.append('auth_completed')
 
     tmp = None
+    ckw = {}
+    khform = opt.get('kh') or ['bytes', 'path', 'object', 'bytes',
+                               'bytes'][v % 5]
+    if khform in ('path', 'pathlist') and not workdir:
+        khform = 'bytes'
     if case['mode'] == 'none':
         kh = None
-    else:
-        api = v % 5
-        if api == 1 and workdir:
-            tmp = os.path.join(workdir, f'kh_{os.getpid()}_{v}')
-            with open(tmp, 'w') as f:
-                f.write(kh_text)
-            kh = tmp
-        elif api == 2:
-            kh = asyncssh.import_known_hosts(kh_text)
+        khform = 'None'
+    elif khform in ('path', 'pathlist'):
+        tmp = os.path.join(workdir, f'kh_{os.getpid()}_{v}')
+        with open(tmp, 'w') as f:
+            f.write(kh_text)
+        kh = tmp if khform == 'path' else [tmp]
+    elif khform == 'object':
+        kh = asyncssh.import_known_hosts(kh_text)
+    elif khform in ('callable', 'tuple', 'tuple7'):
+        # the sets the lookup yields (from the specification), as keys
+        def keys_of(ids):
+            return [key(k, catype if k.startswith('CA') else ktype)
+                    .convert_to_public() for k in ids]
+        sets = (keys_of(case['trusted']), keys_of(case['cas']),
+                keys_of(case['revoked']))
+        if khform == 'tuple7':
+            sets = sets + ([], [], [], [])
+        if khform == 'callable':
+            kh = lambda h, a, p, _s=sets: _s
         else:
-            kh = kh_text.encode()
-    ckw = {}
-    offer_all = (v // 2) % 2 == 0
-    if offer_all:
-        base = {'ed25519': ['ssh-ed25519'],
-                'ecdsa': ['ecdsa-sha2-nistp256'],
-                'rsa': ['rsa-sha2-256', 'rsa-sha2-512']}[ktype]
-        certs = {'ed25519': ['ssh-ed25519-cert-v01@openssh.com'],
-                 'ecdsa': ['ecdsa-sha2-nistp256-cert-v01@openssh.com'],
-                 'rsa': ['rsa-sha2-256-cert-v01@openssh.com',
-                         'rsa-sha2-512-cert-v01@openssh.com']}[ktype]
+            kh = sets
+    else:
+        kh = kh_text.encode()
+    hk = opt.get('hkalgs') or ('all' if (v // 2) % 2 == 0 else 'auto')
+    base = {'ed25519': ['ssh-ed25519'],
+            'ecdsa': ['ecdsa-sha2-nistp256'],
+            'rsa': ['rsa-sha2-256', 'rsa-sha2-512']}[ktype]
+    certs = {'ed25519': ['ssh-ed25519-cert-v01@openssh.com'],
+             'ecdsa': ['ecdsa-sha2-nistp256-cert-v01@openssh.com'],
+             'rsa': ['rsa-sha2-256-cert-v01@openssh.com',
+                     'rsa-sha2-512-cert-v01@openssh.com']}[ktype]
+    if hk == 'all':
         ckw['server_host_key_algs'] = certs + base
+    elif hk == 'default':
+        ckw['server_host_key_algs'] = 'default'
+    elif hk == 'restricted':
+        # the type of the server's key / certificate is not offered
+        other = {'ed25519': 'ecdsa-sha2-nistp384', 'ecdsa': 'ssh-ed25519',
+                 'rsa': 'ssh-ed25519'}[ktype]
+        ckw['server_host_key_algs'] = [
+            other + '-cert-v01@openssh.com', other]
+    offer_all = hk in ('all', 'default')
+    x = opt.get('x509', 'default')
+    if x == 'none':
+        ckw['x509_trusted_certs'] = None
+    elif x == 'empty':
+        ckw['x509_trusted_certs'] = []
+    xp = opt.get('paths', 'default')
+    if xp == 'empty':
+        ckw['x509_trusted_cert_paths'] = []
+    elif xp == 'none':
+        ckw['x509_trusted_cert_paths'] = None
+    pu = opt.get('purposes', 'default')
+    if pu == 'any':
+        ckw['x509_purposes'] = 'any'
+    elif pu == 'none':
+        ckw['x509_purposes'] = None
+    r.info['opt'] = dict(opt, kh=khform, hkalgs=hk)
     if use_alias:
         ckw['host_key_alias'] = ALIAS
     r.info['offer_all'] = offer_all
